@@ -211,6 +211,15 @@ def call_ext(I, e, s, name, args, kwargs):
             I.need(ok, "TypeError", e, "ordering comparison between values that may not be comparable: %s" % norm(e)[:50], "%s vs %s" % (left.describe(), right.describe()))
         I.need(len(args) == 2 and not kwargs, "TypeError", e, "%s takes two operands" % name)
         return AV(["bool"])
+    if name in ("functools.reduce", "reduce") and len(args) >= 2:
+        # reduce(f, xs[, init]): f is applied to (what came out so far, next element) for every element
+        fv, xs = args[0], args[1]
+        iter_check(I, xs, e, "reduce")
+        el = xs.elem_av() if xs.kinds & ITERABLE else AV(["opaque"])
+        acc = args[2] if len(args) > 2 else el
+        for _ in range(2):
+            acc = join(acc, call_value(I, e, s, fv, [acc, el], {}))
+        return acc
     if name.startswith("math."):
         fn = name.split(".")[-1]
         numk = frozenset(["int", "float", "bool"])
